@@ -487,6 +487,9 @@ func (fr *Frame) invEnv(li *loopInfo, st *State) *Env {
 						// $n: the number of keys the range-over-map loop has yielded so far
 						env.vars["$n"] = tSel(fr.fc.comp(st, compRangeIter), rangeIterKey(r), SInt, types.Typ[types.Int])
 					}
+					sc, ks := fr.fc.rangeSeenComp(r.X.Type().Underlying().(*types.Map))
+					// $seen[k]: key k has been yielded by the range-over-map loop
+					env.vars["$seen"] = tSel(fr.fc.comp(st, sc), rangeIterKey(r), arraySort(ks, SBool), nil)
 				}
 			}
 		}
